@@ -42,6 +42,10 @@ func (ex *Exec) callBuiltin(caller *frame, b *ssa.Builtin, args []Value, site ss
 		if len(dst.V) < n {
 			n = len(dst.V)
 		}
+		if ex.sched != nil {
+			ex.touchSlice(src[:n], false)
+			ex.touchSlice(dst.V[:n], true)
+		}
 		tmp := make([]Value, n)
 		for i := 0; i < n; i++ {
 			tmp[i] = copyVal(src[i])
@@ -88,6 +92,7 @@ func (ex *Exec) callBuiltin(caller *frame, b *ssa.Builtin, args []Value, site ss
 			return tb.Const(64, uint64(len((*x).(Array))))
 		}
 	case "delete":
+		ex.touchObj(args[0].(*Map), true)
 		ex.mapDelete(args[0].(*Map), args[1])
 		return nil
 	case "close":
@@ -208,6 +213,14 @@ func (ex *Exec) appendOp(a0, a1 Value) Value {
 		return s
 	}
 	n := len(s.V) + len(add)
+	if ex.sched != nil {
+		ex.touchSlice(add, false)
+		if n <= cap(s.V) {
+			ex.touchSlice(s.V[len(s.V):n], true)
+		} else {
+			ex.touchSlice(s.V, false)
+		}
+	}
 	if n <= cap(s.V) {
 		out := s.V[:n]
 		tmp := make([]Value, len(add))
@@ -243,6 +256,10 @@ func (ex *Exec) appendOp(a0, a1 Value) Value {
 // ---------- channels / goroutines ----------
 
 func (ex *Exec) chanSend(ch *Chan, v Value) {
+	if ex.sched != nil {
+		ex.schedPoint(func() bool { return ch != nil && (ch.closed || len(ch.buf) < ch.cap) }, "channel send")
+		defer ex.releaseEdge(ch)
+	}
 	if ch == nil {
 		panic(goBlocked{"send on nil channel"})
 	}
@@ -257,6 +274,10 @@ func (ex *Exec) chanSend(ch *Chan, v Value) {
 }
 
 func (ex *Exec) chanRecv(ch *Chan, t types.Type, commaOk bool) (Value, bool) {
+	if ex.sched != nil {
+		ex.schedPoint(func() bool { return ch != nil && (ch.closed || len(ch.buf) > 0) }, "channel receive")
+		ex.acquireEdge(ch)
+	}
 	if ch == nil {
 		panic(goBlocked{"receive from nil channel"})
 	}
@@ -279,6 +300,27 @@ func (ex *Exec) chanRecv(ch *Chan, t types.Type, commaOk bool) (Value, bool) {
 
 func (ex *Exec) selectOp(fr *frame, in *ssa.Select) Value {
 	tb := ex.tb
+	if ex.sched != nil {
+		ready := func() bool {
+			if !in.Blocking {
+				return true
+			}
+			for _, st := range in.States {
+				ch, _ := ex.get(fr, st.Chan).(*Chan)
+				if ch == nil {
+					continue
+				}
+				if st.Dir == types.RecvOnly && (len(ch.buf) > 0 || ch.closed) {
+					return true
+				}
+				if st.Dir != types.RecvOnly && (ch.closed || len(ch.buf) < ch.cap) {
+					return true
+				}
+			}
+			return false
+		}
+		ex.schedPoint(ready, "select")
+	}
 	res := make(Tuple, 2+0)
 	res[0] = tb.Const(64, ^uint64(0))
 	res[1] = tb.False
